@@ -304,6 +304,10 @@ def gen_spec(prop, rng, tier):
         spec['arr_seqs'] = seqs
     if mode != 'arr' and rng.random() < 0.08:
         spec['pipe_in'] = 1
+    elif mode != 'arr' and rng.random() < 0.06:
+        # the output path is one of the inputs (re-align a file in place, or `kalign a.fa b.fa -o a.fa`): everything must
+        # have been read before the output is opened
+        spec['outpath'] = rng.choice(['in.dat'] + ['in%d.dat' % k for k in range(1, len(pieces_of(data)))])
     if mode == 'lib' and rng.random() < 0.3:
         # the other two public calls that take an msa: reformat_settings_msa (rename / unalign) and kalign_check_msa
         spec['libops'] = [rng.choice([['M', 1, 0], ['M', 1, 1], ['M', 0, 1], ['V', 0], ['V', 0], ['V', 1]]) for _ in range(rng.choice([1, 1, 2]))]
